@@ -1,6 +1,6 @@
 (* Properties_C09.v — obligations of property C09 (extended check: nothing seen only once ever
    becomes visible). *)
-Require Import ObsRun Lemmas_Ext Lemmas_TabEcc.
+Require Import ObsRun Lemmas_Ext Lemmas_TabEcc Lemmas_ModeInd.
 Local Open Scope Z_scope.
 
 (* For EVERY history in which the extended check was switched on while the parser was in its reset
@@ -45,8 +45,22 @@ Theorem C09_af_twice : forall conv lut h s, reach conv lut h s -> ext_scope h = 
 Proof. intros conv lut h s Hr He. exact (proj2 (C10_af_set_holds conv lut h s Hr) He). Qed.
 Print Assumptions C09_af_twice.
 
-(* texts and clock time are not subject to the mode: the text step theorems (C06/C08) and the
-   clock-time theorem (C12) do not mention `ext`; on the library this is checked by twin runs *)
+(* TEXTS AND CLOCK TIME ARE NOT SUBJECT TO THE MODE.  Take two parser states that agree on the four
+   texts, the A/B register, the text settings, the callbacks and the user data, and differ
+   arbitrarily in the extended-check flag and in both stages of the scalar / AF buffer (e.g. the
+   same stream fed with and without the check).  Every group keeps them in agreement on the texts,
+   and they make exactly the same PS, RT, PTYN and clock-time callbacks. *)
+Theorem C09_texts_ignore_the_mode : forall conv lut g s1 s2, Inv conv s1 -> Inv conv s2 -> wf_group g ->
+  txt_eq s1 s2 -> txt_eq (fst (process conv lut g s1)) (fst (process conv lut g s2)).
+Proof. exact texts_ignore_mode. Qed.
+Print Assumptions C09_texts_ignore_the_mode.
+Theorem C09_text_and_clock_callbacks_ignore_the_mode : forall conv lut g s1 s2, Inv conv s1 -> Inv conv s2 ->
+  wf_group g -> txt_eq s1 s2 -> cb s1 = cb s2 -> ud s1 = ud s2 ->
+  forall F, In F [FPS; FRT; FPTYN; FCT] ->
+  filter (isf F) (snd (process conv lut g s1)) = filter (isf F) (snd (process conv lut g s2)).
+Proof. exact text_and_clock_callbacks_ignore_mode. Qed.
+Print Assumptions C09_text_and_clock_callbacks_ignore_the_mode.
+(* (on the library: twin runs, one instance with the check, one without) *)
 Example C09_scenario : check_run_u (observer_u 9) scenario = true.
 Proof. vm_compute. reflexivity. Qed.
 Example C09_alternation :
